@@ -68,8 +68,10 @@ class Canonicalizer:
     def _canonicalize_variable(self, variable: Variable) -> Variable:
         return variable
 
-    def _sorted_key(self, variable: Variable) -> int:
-        return self.ordering_level[variable.name]
+    def _sorted_key(self, variable: Variable) -> tuple[int, str, int]:
+        # variables of one name (in different worlds, or with different values) are ordered, too
+        star = {None: 0, False: 1, True: 2}[variable.star]
+        return self.ordering_level[variable.name], _variable_sort_key(variable)[1], star
 
     def canonicalize(self, expression: Expression) -> Expression:
         """Canonicalize an expression.
